@@ -33,6 +33,14 @@ CORPUS.update({
     "cmp-same-type": 'Signal a = ("signal-A", 5);\nSignal b = ("signal-A", 7);\nSignal lt = a < b;\nSignal x = ("signal-X", 6);\nSignal y = ("signal-X", 2);\nSignal ge = (x >= y) : 9;\n',
 })
 
+CORPUS.update({
+    # sources that take part in several wire merges with a transitive conflict (balanced loader, three chests)
+    "balanced-loader": 'Entity c1 = place("steel-chest", 0, 0);\nEntity c2 = place("steel-chest", 1, 0);\nEntity c3 = place("steel-chest", 2, 0);\nEntity i1 = place("fast-inserter", 0, 1);\nEntity i2 = place("fast-inserter", 1, 1);\nEntity i3 = place("fast-inserter", 2, 1);\nBundle total = {c1.output, c2.output, c3.output};\nBundle neg_avg = total / -3;\nBundle in1 = {neg_avg, c1.output};\nBundle in2 = {neg_avg, c2.output};\nBundle in3 = {neg_avg, c3.output};\ni1.enable = any(in1) < 0;\ni2.enable = any(in2) < 0;\ni3.enable = any(in3) < 0;\n',
+    # a pair for compile histories: the first registers internal labels, the second uses such a label as a variable name
+    "hist-memory-named-counter": 'Memory counter: "signal-A";\ncounter.write(counter.read() + 1);\nBundle bundle = {("signal-X", 1), ("signal-Y", 2)};\nSignal o = counter.read() + bundle["signal-X"];\n',
+    "hist-variable-named-mem-counter": 'Signal mem_counter = 5;\nSignal y = mem_counter * 3;\nSignal bundle = 7;\nSignal z = bundle + y;\n',
+})
+
 # programs whose interest is geometric (used by C08 / C18 / C10, not by the CLI / determinism products)
 LAYOUT = {
     # a user entity standing exactly where the relay chain of a long connection wants its first pole
